@@ -10,21 +10,14 @@ META = {
 }
 
 
-def _mc(c, *a, **k):
-    import os
-    if os.environ.get("VERIF_SKIP_MC"):  # speed-up for mutation testing only: the model does not depend on /repo
-        return None
-    return c.tlc_mc(*a, **k)
-
-
 def run(c):
-    _mc(c, "Rendezvous", "MCRendezvous.cfg")
-    _mc(c, "Rendezvous", "MCRendezvous22.cfg")
-    _mc(c, "Rendezvous", "MCRendezvous_canary.cfg",
+    c.tlc_mc("Rendezvous", "MCRendezvous.cfg")
+    c.tlc_mc("Rendezvous", "MCRendezvous22.cfg")
+    c.tlc_mc("Rendezvous", "MCRendezvous_canary.cfg",
              expect=["RefreshAlwaysAllowed", "TotalLimit", "NoOrphans", "NoSpuriousExpiry"])
-    _mc(c, "Rendezvous", "MCRendezvous_canary2.cfg", expect=["TotalLimit", "NoOrphans", "NoSpuriousExpiry"])
+    c.tlc_mc("Rendezvous", "MCRendezvous_canary2.cfg", expect=["TotalLimit", "NoOrphans", "NoSpuriousExpiry"])
     if not c.quick:
-        _mc(c, "Rendezvous", "MCRendezvous3.cfg", timeout=900)
+        c.tlc_mc("Rendezvous", "MCRendezvous3.cfg", timeout=900)
     drv = c.build("drv-rendezvous")
     if c.replay:
         t = c.rundir / "replay_trace.ndjson"
